@@ -78,6 +78,7 @@ def _classes():
             super().__init__(x, y, lik)
             self.mean_module = gpytorch.means.ConstantMean(batch_shape=bs)
             base = (gpytorch.kernels.RBFKernel(batch_shape=bs) if kernel == "rbf"
+                    else gpytorch.kernels.LinearKernel(batch_shape=bs) if kernel == "linear"
                     else gpytorch.kernels.MaternKernel(nu=2.5, batch_shape=bs))
             self.covar_module = gpytorch.kernels.ScaleKernel(base, batch_shape=bs)
 
@@ -162,7 +163,10 @@ def build_source(cfg, gen):
         else:
             m.mean_module.constant.copy_(_rand(gen, *b, lo=-1, hi=1))
             m.covar_module.outputscale = _rand(gen, *b, lo=0.5, hi=2.0)
-            m.covar_module.base_kernel.lengthscale = _rand(gen, *b, 1, 1, lo=0.4, hi=1.2)
+            if cfg["kernel"] == "linear":
+                m.covar_module.base_kernel.variance = _rand(gen, *b, 1, 1, lo=0.5, hi=1.5)
+            else:
+                m.covar_module.base_kernel.lengthscale = _rand(gen, *b, 1, 1, lo=0.4, hi=1.2)
         if cfg["lik"] == "gauss":
             lik.noise = _rand(gen, *b, 1, lo=0.05, hi=0.5)
         elif cfg["lik"] == "fixedl":
@@ -204,6 +208,12 @@ def settings_of(cfg):
             st.enter_context(gpytorch.settings.max_cg_iterations(2000))
         if cfg.get("no_grad"):
             st.enter_context(torch.no_grad())
+        if cfg.get("floor"):
+            st.enter_context(gpytorch.settings.min_fixed_noise(double_value=float(cfg["floor"])))
+        if cfg.get("eager0"):
+            st.enter_context(gpytorch.settings.max_eager_kernel_size(0))     # lazy block slicing of the joint
+        if cfg.get("lazy_off"):
+            st.enter_context(gpytorch.settings.lazily_evaluate_kernels(False))
         yield
 
 
@@ -344,7 +354,7 @@ def _case(rng, **kw):
 
 
 def _step(rng, mode, F=None, f=None, noise="match"):
-    return {"mode": mode, "F": F if F is not None else rng.choice([2, 3]), "f": f or rng.randint(1, 3), "noise": noise}
+    return {"mode": mode, "F": F if F is not None else rng.choice([2, 3]), "f": f if f is not None else rng.randint(1, 3), "noise": noise}
 
 
 def cases(tier, rng):
@@ -406,6 +416,34 @@ def cases(tier, rng):
         out.append(_case(rng, lik="fixed", aux_lik="fixed", fpv=1, via_list=1, steps=[_step(rng, "plain", f=2)]))
         out.append(_case(rng, lik="fixedl", aux_lik="fixed", fpv=0, via_list=1, steps=[_step(rng, "plain", f=3)]))
         out.append(_case(rng, lik="gauss", aux_lik="fixedl", fpv=1, via_list=1, steps=[_step(rng, "plain", f=1)]))
+        # (11) fantasy noise at / below / one ulp around settings.min_fixed_noise (default and raised floor)
+        for floor, nk, fpv in itertools.product([0, 1e-2], ["zero", "tiny", "floor-", "floor", "floor+", "neg"], [0, 1]):
+            depth = rng.randint(1, 3)
+            out.append(_case(rng, lik=rng.choice(["fixed", "fixedl"]), fpv=fpv, dtc=rng.choice([0, 1]), floor=floor,
+                             n=rng.randint(3, 6), b=rng.choice([[], [], [2]]), pred_between=rng.choice([0, 1]),
+                             steps=[dict(_step(rng, "plain", f=rng.randint(1, 2)), noise_kind=nk) for _ in range(depth)]))
+        # (12) op-then-use histories on the source, settings changed between creation and use
+        for pre in ("set_targets", "set_data", "load_state", "load_state_partial", "train_eval"):
+            out.append(_case(rng, lik=rng.choice(liks), fpv=rng.choice([0, 1]), pre=pre, b=rng.choice([[], [2]]),
+                             steps=[_step(rng, rng.choice(["plain", "per"]))]))
+        for lik, (fc, fp) in itertools.product(liks, [(0, 1), (1, 0)]):
+            out.append(_case(rng, lik=lik, fpv=fc, fpv_pred=fp, steps=[_step(rng, "plain"), _step(rng, "plain", f=1)],
+                             n=rng.randint(3, 6)))
+        # (13) legal but unusual arguments / aliasing
+        out.append(_case(rng, lik="gauss", fpv=1, steps=[dict(_step(rng, "plain", f=2), alias="train_view")]))
+        out.append(_case(rng, lik="fixed", fpv=1, b=[2], steps=[dict(_step(rng, "plain", f=2), alias="train_view")]))
+        out.append(_case(rng, lik="fixedl", fpv=0, steps=[dict(_step(rng, "plain", f=2), alias="dup")]))
+        out.append(_case(rng, lik="gauss", fpv=1, steps=[dict(_step(rng, "plain", f=2), zero_resid=1)]))
+        out.append(_case(rng, lik="fixed", fpv=1, b=[2], steps=[dict(_step(rng, "per", F=2, f=1), zero_resid=1)]))
+        out.append(_case(rng, lik="gauss", fpv=1, b=[2], n=3, steps=[_step(rng, "shared", F=2, f=1), _step(rng, "per", F=2, f=1)]))
+        out.append(_case(rng, lik="fixed", fpv=0, b=[2], n=3, steps=[_step(rng, "per", F=2, f=1), _step(rng, "per", F=2, f=1)]))
+        out.append(_case(rng, lik="gauss", fpv=1, steps=[_step(rng, "plain", f=0)], empty=1))
+        # (14) rarely used branches: lazy block slicing of the joint, eager kernels, low-rank (RootLinearOperator) prior
+        for lik, fpv in itertools.product(["gauss", "fixed"], [0, 1]):
+            out.append(_case(rng, lik=lik, fpv=fpv, eager0=1, steps=[_step(rng, "plain")]))
+            out.append(_case(rng, lik=lik, fpv=fpv, kernel="linear", d=2, n=rng.randint(4, 7),
+                             steps=[_step(rng, "plain", f=2), _step(rng, "plain", f=1)]))
+        out.append(_case(rng, lik="fixedl", fpv=1, lazy_off=1, steps=[_step(rng, "plain"), _step(rng, "shared", F=2)]))
         # (9) deepcopy refuses (as it does for objects holding non-leaf tensors): the call must fail *and* leave the
         #     source as it was
         out.append(_case(rng, lik="gauss", fpv=1, poison="model", steps=[_step(rng, "plain")]))
@@ -420,7 +458,7 @@ def cases(tier, rng):
 
 # cells that the implementation is known to support: a raise there is a failure, not a `rejected`
 def expected_supported(cfg):
-    if cfg.get("lanczos") or cfg.get("poison"):
+    if cfg.get("lanczos") or cfg.get("poison") or cfg.get("empty"):
         return False
     if cfg["strategy"] == "wiski":
         return bool(cfg["no_grad"]) and cfg["lik"] == "gauss" and all(s["mode"] == "plain" for s in cfg["steps"])
@@ -495,6 +533,26 @@ def _run_case(cfg):
     ev = (lambda v: v.shape[:-2]) if mt else (lambda v: v.shape[:-1])
     with settings_of(cfg):
         p0 = source(xs)
+        pre = cfg.get("pre")
+        if pre == "set_targets":          # targets-only set_train_data on an already used model
+            y = _randn(gen, *y.shape)
+            source.set_train_data(targets=y, strict=True)
+        elif pre == "set_data":
+            x, y = _rand(gen, *x.shape), _randn(gen, *y.shape)
+            source.set_train_data(inputs=x, targets=y, strict=True)
+        elif pre in ("load_state", "load_state_partial"):   # new hyper-parameters into an already used model
+            sd = {k: v.clone() for k, v in source.state_dict().items()}
+            for k in sd:
+                if k.endswith("raw_outputscale") or k.endswith("raw_lengthscale") or k.endswith("raw_constant"):
+                    sd[k] = sd[k] + 0.37
+            if pre == "load_state_partial":
+                sd = {k: v for k, v in sd.items() if "outputscale" in k or "lengthscale" in k}
+            source.load_state_dict(sd, strict=(pre == "load_state"))
+        elif pre == "train_eval":
+            source.train()
+            source.eval()
+        if pre:
+            p0 = source(xs)
         p0m, p0c = p0.mean.detach().clone(), p0.covariance_matrix.detach().clone()
         rec["strategy_class"] = type(source.prediction_strategy).__name__
         if cfg.get("via_list"):
@@ -518,6 +576,17 @@ def _run_case(cfg):
             else:  # un-batched inputs, targets carry the model batch
                 xf, yshape, Bn = _rand(gen, f, d), (*B, f), B
             yf = _randn(gen, *yshape, T_TASKS) if mt else _randn(gen, *yshape)
+            al = stp.get("alias")
+            if al == "train_view" and mode == "plain" and not mt:
+                # fantasy points *are* (views of) training points of the current model
+                xf = cur.train_inputs[0][..., :f, :]
+                yf = cur.train_targets[..., :f]
+            elif al == "dup" and mode == "plain":
+                xf = xf.clone()
+                xf[..., -1, :] = X_full.expand(*B, *X_full.shape[-2:])[..., 0, :]     # equal values, different tensor
+            if stp.get("zero_resid") and not mt:
+                with torch.no_grad():
+                    yf = source.mean_module(xf.expand(*Bn, f, d)).expand(*yshape).clone()   # y_f - mu_f = 0 exactly
             kw = {}
             nz = None
             if cfg["lik"] in ("fixed", "fixedl"):
@@ -529,7 +598,19 @@ def _run_case(cfg):
                     nshape = None
                 if nshape is not None:
                     nz = _rand(gen, *nshape, lo=0.05, hi=0.5)
+                    nk = stp.get("noise_kind", "rand")
+                    fl = gpytorch.settings.min_fixed_noise.value(torch.float64)
+                    if nk != "rand":
+                        val = {"zero": 0.0, "tiny": 1e-9, "floor-": float(torch.nextafter(torch.tensor(fl), torch.tensor(0.0))),
+                               "floor": fl, "floor+": float(torch.nextafter(torch.tensor(fl), torch.tensor(1.0))),
+                               "neg": -1e-3}[nk]
+                        nz = nz.clone()
+                        nz[..., 0] = val                      # first fantasy point at / around / below the floor
+                        if nk in ("zero", "neg"):
+                            nz = torch.full_like(nz, val)
                     kw["noise"] = nz
+                    # the noise the fantasy likelihood (and a fresh likelihood on the same values) works with
+                    nz = nz.clamp_min(fl)
             pb = cur(xs)
             pbm, pbc = pb.mean.detach().clone(), pb.covariance_matrix.detach().clone()
             if cfg.get("poison") == "model":
@@ -600,6 +681,15 @@ def _run_case(cfg):
             src_ptrs = {p.data_ptr() for p in cur.parameters()}
             if any(p.data_ptr() in src_ptrs for p in nxt.parameters()):
                 rec["frame"].append((si, "aliasing", "fantasy model shares parameter storage with the source"))
+            src_bufs = {q.data_ptr() for q in cur.buffers() if q.numel()}
+            if any(q.numel() and q.data_ptr() in src_bufs for q in nxt.buffers()):
+                rec["frame"].append((si, "aliasing", "fantasy model shares buffer storage with the source"))
+            sn = getattr(getattr(cur.likelihood, "noise_covar", None), "noise", None)
+            fn_ = getattr(getattr(nxt.likelihood, "noise_covar", None), "noise", None)
+            if torch.is_tensor(sn) and torch.is_tensor(fn_) and not isinstance(
+                    getattr(type(cur.likelihood.noise_covar), "noise", None), property) \
+                    and sn.untyped_storage().data_ptr() == fn_.untyped_storage().data_ptr():
+                rec["frame"].append((si, "aliasing", "fantasy likelihood's fixed noise shares storage with the source's"))
             # ---- expected concatenated data (the property's "concatenated data")
             Bn = tuple(Bn)
             ytail = (T_TASKS,) if mt else ()
@@ -653,9 +743,24 @@ def _run_case(cfg):
                     srec["Lroot"] = None if P is None else P.root_decomposition(method="cholesky").root.to_dense().detach()
             # ---- prediction of the fantasy model
             try:
-                pf = nxt(xs)
-                srec["pm"] = pf.mean.detach().reshape(*Bn, t * TT)
-                srec["pc"] = pf.covariance_matrix.detach()
+                with contextlib.ExitStack() as st2:
+                    if cfg.get("fpv_pred") is not None:      # setting changed between creation and use
+                        st2.enter_context(gpytorch.settings.fast_pred_var(bool(cfg["fpv_pred"])))
+                    pf = nxt(xs)
+                    srec["pm"] = pf.mean.detach().reshape(*Bn, t * TT)
+                    srec["pc"] = pf.covariance_matrix.detach()
+                    if not mt and cfg["strategy"] == "default":
+                        # observation-noise predictive through the fantasy likelihood (call-time noise for FixedNoise)
+                        if cfg["lik"] == "gauss":
+                            po = nxt.likelihood(pf)
+                            add = source.likelihood.noise.detach().expand(*b, 1).expand(*Bn, 1).expand(*Bn, t)
+                        else:
+                            tn = _rand(gen, *Bn, t, lo=0.05, hi=0.5)
+                            po = nxt.likelihood(pf, noise=tn)
+                            add = tn + (source.likelihood.second_noise.detach().expand(*b, 1).expand(*Bn, 1)
+                                        if cfg["lik"] == "fixedl" else 0.0)
+                        srec["po"] = po.covariance_matrix.detach()
+                        srec["po_add"] = add
                 if cfg["strategy"] == "wiski":
                     fmc = _get_memo(fs, "fantasy_mean_cache")
                     srec["obs"]["fantasy_mean_cache"] = None if fmc is None else fmc.detach()
@@ -875,6 +980,8 @@ def compare_step(ctx, cfg, srec, e, exact, key_prefix, replay, fail, broke):
     if srec.get("pm") is not None:
         chk("pred-mean", srec["pm"][e].numpy().reshape(-1, 1), pm_x)
         chk("pred-covar", srec["pc"][e].numpy(), pc_x)
+    if srec.get("po") is not None and srec.get("pm") is not None:
+        chk("marginal-covar", srec["po"][e].numpy(), pc_x + np.diag(srec["po_add"][e].numpy()))
     if srec.get("qm") is not None:
         chk("fresh-pred-mean", srec["qm"][e].numpy().reshape(-1, 1), pm_x, kind="broke")
         chk("fresh-pred-covar", srec["qc"][e].numpy(), pc_x, kind="broke")
@@ -900,6 +1007,8 @@ def _run_all(ctx, case_list, use_driver=True, element_limit=3):
         rp = {"cfg": cfg}
         lname = LIK_NAME[cfg["lik"]]
         kp = f"fantasy:{lname}:{cfg['strategy']}"
+        if any(st_.get("noise_kind", "rand") != "rand" for st_ in cfg["steps"]):
+            kp += ":noise-floor"
         try:
             rec = run_case(cfg)
         except Exception as e:  # noqa: BLE001  the harness itself (or model construction) failed
@@ -956,7 +1065,7 @@ def _run_all(ctx, case_list, use_driver=True, element_limit=3):
                         broke(f"{kp}:cache-shape:{nm}", f"carried `{nm}` has a shape incompatible with batch {srec['B']}", rp)
             B = tuple(srec["B"])
             for e in _elements(B, f"{cfg['seed']}:{srec['si']}", element_limit):
-                if use_driver:
+                if use_driver and min(srec["sizes"]) > 0:
                     lines.append(fant_line(srec, e, TT, cfg["t"]))
                     pending.append(("fant", cfg, srec, e, kp, rp))
                 else:
@@ -971,7 +1080,7 @@ def _run_all(ctx, case_list, use_driver=True, element_limit=3):
                                            C.mat_tokens(srec["noise_full"][e][n0:].unsqueeze(-1))]))
                     pending.append(("noisecat", cfg, srec, e, kp, rp))
             # model of cat_rows on the observed factors (one element)
-            if (use_driver and cfg["strategy"] == "default" and not cfg.get("lanczos")
+            if (use_driver and cfg["strategy"] == "default" and not cfg.get("lanczos") and min(srec["sizes"]) > 0
                     and srec.get("src_root") is not None and srec.get("src_root_inv") is not None
                     and srec["obs"].get("root") is not None):
                 e = _elements(B, "r", 1)[0]
